@@ -448,6 +448,10 @@ def endBlock (st : State) (next : Nat) : State :=
   let st := checkAndMove st st.height
   { st with trie := st.live, pending := [], height := next }
 
+/-- A block execution that is discarded (cast but not adopted, abandoned fork): the account state falls back to the
+    last block end `committed`; the public-key cache is not part of it and keeps what the discarded block wrote. -/
+def rewind (committed st : State) : State := { committed with pk := st.pk, height := st.height }
+
 inductive Op
   | tx (t : Tx)
   | endBlock (next : Nat)
